@@ -277,6 +277,22 @@ CLAIMED = {
                 "sizes other than the default are unreachable through the API; the rules are independent of the chunk size.",
         "design_ref": "DESIGN.md section 3 / C04, rules R7, R9a, R8.fetch",
     },
+    "C20": {
+        "technique": "CFG effect summaries of ncvalidator's own header parser compared with the specification grammar; "
+                     "must-pass-through rule (every mismatch branch that reports DIFF increments a counter on all its "
+                     "paths), def-use closure from the counters to the exit status, exhaustiveness of the type "
+                     "dispatches (switches and if-chains), bounded partition-slice rule",
+        "text": "Decides structural clauses for ncvalidator, ncmpidiff and cdfdiff: the validator parses exactly the "
+                "specification's header grammar for CDF-1/2/5 (the same grammar C03/C04 establish for the library's "
+                "encoder and decoder, so it accepts the library's headers field for field); in both diff tools every "
+                "reported difference increments a difference counter on all paths of its mismatch branch (also when "
+                "output is suppressed), every counter reaches the exit status, every value/attribute type dispatch "
+                "covers all 11 external types, and ncmpidiff's division of a variable among processes tiles the "
+                "dimension (bounded). NOT decided: the validator's semantic strictness beyond the grammar, "
+                "ncmpidump/ncmpigen/ncoffsets output, tolerance arithmetic.",
+        "note": "Found and fixed: ncmpidiff had no NC_BYTE case in its three dispatches (F-C20-1..3).",
+        "design_ref": "DESIGN.md section 3 / C20",
+    },
 }
 
 NA_REASON = {
